@@ -15,7 +15,7 @@ func init() {
 		Explain:    "Decides structural necessary conditions of exact required-field checking: (1) the three fast decode loops can report `initialized` only through the popcount(requiredMask) == numRequiredFields test and set requiredMask bits only after a successful field decode; the required-field counter saturates strictly above 64 so that >64 required fields can never look complete; (2) every success exit of the central Marshal/Unmarshal functions (binary, JSON, text) is preceded by the AllowPartial test, the fast-path initialized flag, or a CheckInitialized call; (3) checkInitializedPointer skips a field only through an enumerated set of legitimate skip edges (absent, nil, no isInit, lazy-and-checked); (4) a lazy field that the validator reported uninitialized under CheckRequired is never left unexpanded (the init check trusts unexpanded lazy fields); (5) every oneof member whose element coder has isInit gets a non-nil isInit slot, because the decode loops consult the decoded member's slot. The validator's required-field presence test accepts each validation type exactly on the wire type it was assigned for (R-VALIDATE-WIRETYPE), so a record that Unmarshal keeps as unknown never marks a required field present. In the reflection-based algorithms every condition or switch that tests MessageKind also covers GroupKind (R-MSG-GROUP-PAIR), so required fields inside group-encoded submessages are checked like those inside messages. The fast path's initialized flag is trusted only when the destination was reset by the call (R-INIT-FLAG-SCOPE): with Merge the whole resulting message is checked.",
 		NotCovered: "exact iff on arbitrary message trees; the needsInitCheck memoisation across cyclic message graphs (observed defect N2, see DESIGN.md §5) is outside these rules.",
 		Quick:      all("./proto", "./internal/impl", "./encoding/protojson", "./encoding/prototext"),
-		Thorough:   all("./..."),
+		Thorough:   allAndLegacy("./proto", "./internal/impl", "./encoding/protojson", "./encoding/prototext"),
 		Run: func(c *Ctx) {
 			c.ruleInitFlagScope("R-INIT-FLAG-SCOPE")
 			c.ruleMsgGroupPair("R-MSG-GROUP-PAIR", []string{"proto", "encoding/protojson", "encoding/prototext", "types/dynamicpb"}, 5)
